@@ -42,7 +42,7 @@ claim("C20", "exploration",
 
 claim("C07", "exploration",
   "One scenario per run: a non-terminating guest of a tape-chosen cycle shape (10 shapes incl. every tail-call form, indirect calls, loops entered from host callbacks; with padding) x yielding/pure spin x cause (cancel, deadline, close from another goroutine, Runtime.Close) x moment (already done, k-th host callback, second goroutine), both engines. Oracle: the call returns (watchdog: a hang is the violation), exit error with the cause's code, module closed, and for yielding guests a plan-derived bound on host callbacks after the closed flag is visible. Sampling over shapes and moments, not proof that every cycle has a check.",
-  "Trusted: the shape catalogue covers the ways to form a cycle; for pure spins on the compiler the cancellation instant is not controlled (oracle is moment-independent). Watchdog 30 s is >10^4 x the healthy latency.",
+  "Trusted: the shape catalogue covers the ways to form a cycle; for pure spins on the compiler the cancellation instant is not controlled (oracle is moment-independent). Watchdog 30 s is >10^4 x the healthy latency. Known findings recognised by signature: a WASI call under a concurrent Close dereferences the released system context (cycles that call sched_yield, causes close-from-goroutine / runtime-close); a guest parked in memory.atomic.wait is not woken (class parked, the call runs in an abandoned goroutine).",
   "deterministic simulation: simulator-owned cancellation moment and cause over cycle-shape guests, liveness by supervisor watchdog and step bound, replay of the scenario tape",
   "DESIGN.md §5 C07")
 
@@ -61,12 +61,12 @@ claim("C18", "exploration",
 claim("C13", "fault_enumeration",
   "Per tape-generated module: determinism of the cache entry across fresh runtimes; then EVERY crash point of the add operation is enumerated on an in-memory disk (before each syscall, inside each write after k bytes) under two persistence models - process death and power loss (data durable only up to the last fsync, unsynced tail dropped or zero-filled, each directory operation persisted or lost) - and a restarted runtime must find nothing or a byte-identical entry under the final name, compile, and execute correctly; every truncation length and foreign-version entries must be reported or recompiled, never executed; read faults; two concurrent writers under a seeded baton scheduler. Crash points are exhaustive per module; the module population is sampled.",
   "Trusted: the sim-disk persistence model (conservative POSIX, not a specific file system), the go/ast instrumenter that substitutes package os in internal/filecache/file_cache.go and cache.go of a scratch copy, the plan model.",
-  "deterministic simulation: simulated disk (volatile/durable layers) with enumerated crash points, power-loss models, truncation sweep, read faults, baton-scheduled concurrent writers",
+  "deterministic simulation: simulated disk (volatile/durable layers) with enumerated crash points, power-loss models, truncation sweep, read faults, transient write errors (ENOSPC/EIO once), baton-scheduled concurrent writers of the same or different modules",
   "DESIGN.md §5 C13")
 
 claim("C10", "exploration",
   "Seeded schedule search over real goroutines under a baton scheduler on an instrumented scratch copy (statement-level yields in runtime.go, builder.go and the store files; scheduler-aware sync/atomic shims): 2-4 clients x 2-6 operations over a small name set; the recorded invoke/return history plus a sequential probe is checked with porcupine against the atomic-registry specification; additionally no operation may panic, no deadlock, and close notifications fire exactly once for closed modules. Policies: uniform, PCT-style, sequential. Sampling of schedules, not exhaustive.",
-  "Trusted: the go/ast instrumenter and shims (forwarding outside the simulation), the registry specification (about 120 lines), porcupine v1.3.0. Interleavings are decided at inserted yield points only. Two known findings are recognised by signature (two-phase close via a relaxed specification; compiled-entry deletion via error text + history condition).",
+  "Trusted: the go/ast instrumenter and shims (forwarding outside the simulation), the registry specification (about 120 lines), porcupine v1.3.0. Interleavings are decided at inserted yield points only. Known findings recognised by signature (two-phase close via a relaxed specification; compiled-entry deletion via error text + history condition; an importer whose start function failed pins the exporter's allocator memory). Sequential classes: context-close, registry-large (hundreds of names), resources (files released exactly once on every way of closing, with failing closes).",
   "deterministic simulation: seeded baton scheduler over instrumented real code, linearizability checking of recorded histories (porcupine), schedule shrinking + replay",
   "DESIGN.md §5 C10")
 
@@ -78,7 +78,7 @@ claim("C11", "exploration",
 
 claim("C04", "exploration",
   "Seeded simulation of instance graphs (2-6 instances) wired by imports of functions, a memory, a table and five globals, each defined locally or imported from any earlier instance, with imports drawn compatible or incompatible in exactly one respect; histories of writes/reads/grows from every side and through the host API, a caller holding the memory across a growing callee, and later instantiations whose segment offsets and initialisers read imported immutable globals, with out-of-bounds segments and trapping start functions. A single-copy model (one object per definition) must agree with every instance's own getters and with the host API after every step; instantiation must succeed exactly when the model's linking rule says so. A harness-owned always-moving mmap allocator (old region PROT_NONE) turns stale cached memory bases into immediate faults, and injects allocation failures. Both engines against the same model. Sampling, not proof.",
-  "Trusted: the single-copy model and module generator (valid graphs only); wazero's documented choice to ignore an out-of-bounds active element segment is modelled as such; table import minimum compared only where wazero and the specification agree.",
+  "Trusted: the single-copy model and module generator (valid graphs only); wazero's documented choice to ignore an out-of-bounds active element segment is modelled as such. Known finding recognised by an immediate probe: ref.null items of active element segments do not overwrite. Class twins: several instances of one compiled module around one imported table (call_indirect, return_call_indirect).",
   "deterministic simulation: tape-driven instance graphs and cross-instance histories vs single-copy reference model, allocator fault injection (always-move + PROT_NONE, allocation failure)",
   "DESIGN.md §5 C04")
 
